@@ -160,10 +160,17 @@ fn run<K: Kmer>(c: &GCase) -> Outcome {
     let mut o = Outcome::default();
     MEM_UNIT.with(|m| m.set(1));
     let k = K::k();
-    let rs = c.reads_s();
+    let mut rs = c.reads_s();
     let (bl, br) = boundary(c.get("bext"));
     let lab = c.get("labels");
-    let reads: Vec<Read> = rs.iter().enumerate().map(|(i, s)| Read { seq: s.clone(), bl, br, label: if lab == 0 { 7 } else { 100 + i as u64 } }).collect();
+    // labels 0: one label; 1: read i carries 100 + i (ascending in input order); 2: the first read is given
+    // once more at the end and the labels are 5, 3, 5, 1, ... - not ascending in input order, and one label
+    // recurs with a different one in between (the label-set summary must sort AND drop repeats)
+    if lab == 2 && !rs.is_empty() {
+        let first = rs[0].clone();
+        rs.push(first);
+    }
+    let reads: Vec<Read> = rs.iter().enumerate().map(|(i, s)| Read { seq: s.clone(), bl, br, label: match lab { 0 => 7, 1 => 100 + i as u64, _ => [5u64, 3, 5, 1][i % 4] } }).collect();
     let model = Table::from_reads(&reads, k, c.stranded);
     let seqs = to_seqs(&reads);
     let input_kmers: usize = rs.iter().map(|r| r.len().saturating_sub(k - 1)).sum();
@@ -289,15 +296,15 @@ fn plan(quick: bool) -> Vec<Part> {
     if quick {
         v.push(d(Part::new("C05", "R1+RT", 4, Space::singles(4, 7).plus(Space::thresholds(4, 6))), &[0, 4], &[0], 0, 0));
         v.push(d(Part::new("C05", "R1/full", 4, Space::singles(4, 6)), &[1, 4], &[0], 1, 2));
-        v.push(d(Part::new("C05", "R2", 4, Space::pairs(4, 4).plus(Space::with_rc(4, 6))), &[3], &[1], 0, 0));
+        v.push(d(Part::new("C05", "R2", 4, Space::pairs(4, 4).plus(Space::with_rc(4, 6))), &[3], &[1, 2], 0, 0));
         v.push(d(Part::new("C05", "R1+RT", 5, Space::singles(5, 7).plus(Space::thresholds(5, 6))), &[0, 2], &[0], 0, 0));
         v.push(d(Part::new("C05", "R1", 6, Space::singles(6, 7)), &[0], &[0], 0, 0));
     } else {
         v.push(d(Part::new("C05", "R1+RT", 4, Space::singles(4, 9).plus(Space::thresholds(4, 8))), &[0, 1], &[0], 0, 0));
         v.push(d(Part::new("C05", "R1+RT/budgets", 4, Space::singles(4, 8).plus(Space::thresholds(4, 7))), &[0, 3], &[0], 0, 1));
         v.push(d(Part::new("C05", "R1/full", 4, Space::singles(4, 7)), &[0, 1, 2, 3, 4], &[0], 1, 2));
-        v.push(d(Part::new("C05", "R2", 4, Space::pairs(4, 5).plus(Space::with_rc(4, 8))), &[3], &[0, 1], 0, 0));
-        v.push(d(Part::new("C05", "R3", 4, Space::triples(4, 4)), &[0], &[1], 0, 0));
+        v.push(d(Part::new("C05", "R2", 4, Space::pairs(4, 5).plus(Space::with_rc(4, 8))), &[3], &[0, 1, 2], 0, 0));
+        v.push(d(Part::new("C05", "R3", 4, Space::triples(4, 4)), &[0], &[2], 0, 0));
         v.push(d(Part::new("C05", "R1+RT", 5, Space::singles(5, 9).plus(Space::thresholds(5, 8))), &[0, 2], &[0], 0, 0));
         v.push(d(Part::new("C05", "R1/full", 5, Space::singles(5, 7)), &[0, 1], &[0], 1, 2));
         v.push(d(Part::new("C05", "R1", 6, Space::singles(6, 9)), &[0, 1], &[0], 0, 0));
@@ -305,6 +312,9 @@ fn plan(quick: bool) -> Vec<Part> {
     }
     for k in BIG_K {
         v.push(d(Part::new("C05", "catalogue", k, Space { segs: vec![catalogue(k)] }), if quick { &[1] } else { &[0, 1, 3] }, &[1], 0, 0));
+        if !quick || LIFT_QUICK_K.contains(&k) {
+            v.push(d(Part::new("C05", "lifted", k, vcommon::families::lifted(k, !quick)), if quick { &[1] } else { &[0, 3] }, &[1], 0, 0));
+        }
     }
     v
 }
@@ -323,7 +333,7 @@ fn all_plans(rep: &mut Report, tier: &str) {
                 let reads = vec![Read { seq: read.clone(), bl: [false; 4], br: [false; 4], label: 7 }, Read { seq: extra.clone(), bl: [true, false, false, false], br: [false, false, true, false], label: 9 }];
                 let model = Table::from_reads(&reads, <$K>::k(), stranded);
                 let seqs = to_seqs(&reads);
-                let nk: usize = reads.iter().map(|r| r.seq.len() - (<$K>::k() - 1)).sum();
+                let nk: usize = reads.iter().map(|r| r.seq.len().saturating_sub(<$K>::k() - 1)).sum();
                 let kmer_mem = nk * std::mem::size_of::<($K, u64)>();
                 for m in budgets(kmer_mem, tier != "quick" || <$K>::k() == 4) {
                     let mut o = Outcome::default();
@@ -376,7 +386,7 @@ fn many_observations(rep: &mut Report) {
             for stranded in [false, true] {
                 let model = Table::from_reads(&reads, <$K>::k(), stranded);
                 let seqs = to_seqs(&reads);
-                let nk: usize = reads.iter().map(|r| r.seq.len() - (<$K>::k() - 1)).sum();
+                let nk: usize = reads.iter().map(|r| r.seq.len().saturating_sub(<$K>::k() - 1)).sum();
                 let kmer_mem = nk * std::mem::size_of::<($K, u64)>();
                 for m in [kmer_mem + 1, kmer_mem / 3, kmer_mem / 40] {
                     let boxed = Box::new(Recording { calls: std::sync::atomic::AtomicUsize::new(0) });
@@ -414,20 +424,24 @@ fn many_observations(rep: &mut Report) {
 fn saturation(rep: &mut Report) {
     use debruijn::kmer::Kmer6;
     MEM_UNIT.with(|m| m.set(1_000_000_000));
-    let reads = vec![Read::plain(vec![0u8; 70_000], 1), Read::plain(vec![3u8; 100], 2)];
+    // G A^70000 C: the homopolymer k-mer is observed 69 995 times; its FIRST observation carries the only left
+    // extension (G) and its LAST one the only right extension (C) - every observation must be folded in even
+    // after the 16-bit count has saturated
+    let mut long = vec![2u8];
+    long.extend(vec![0u8; 70_000]);
+    long.push(1);
+    let reads = vec![Read::plain(long, 1), Read::plain(vec![3u8; 100], 2)];
     let seqs = to_seqs(&reads);
     for stranded in [false, true] {
-        for thr in [65_534usize, 65_535, 65_536, 70_000] {
+        let model = Table::from_reads(&reads, 6, stranded);
+        for thr in [1usize, 65_534, 65_535, 65_536, 70_000] {
             let res = filter_kmers::<Kmer6, _, _, _, _>(&seqs, &Box::new(CountFilter::new(thr)), stranded, true, 1);
-            let want_a = 70_000 - 5 + if stranded { 0 } else { 95 };
-            let got: BTreeMap<S, u16> = res.0.iter().map(|(k, _, d)| (kstr(k), *d)).collect();
-            let accepted = 65_535 >= thr;
-            let ok = if accepted { got.get(&vec![0u8; 6]) == Some(&65_535) && got.len() == 1 } else { got.is_empty() };
+            let mut o = Outcome::default();
+            judge(&mut o, &format!("G A^70000 C + T^100, CountFilter({})", thr), &res, &model, &|e| e.count().min(65_535) >= thr, &|_, en, d: &u16| if *d as usize == en.count().min(65_535) { Ok(()) } else { Err(format!("count {} but {} observations", d, en.count())) }, true, false);
             rep.count("special:saturation_runs", 1);
             rep.transitions += 1;
-            let _ = want_a;
-            if !ok {
-                rep.violation(Violation { signature: "saturating-count-wrong".into(), case: json!({"special": "homopolymer70000", "stranded": stranded, "thr": thr}), detail: format!("70 000-base homopolymer, threshold {}: table {:?}", thr, got.iter().map(|(k, v)| (ascii(k), *v)).collect::<Vec<_>>()) });
+            if let Some((sig, det)) = o.err {
+                rep.violation(Violation { signature: format!("saturation/{}", sig), case: json!({"special": "homopolymer70000", "stranded": stranded, "thr": thr}), detail: det });
             }
         }
     }
@@ -474,10 +488,15 @@ fn main() {
     for p in plan(tier == "quick") {
         vglue::case::run_part(&p, &FLAGS[..8], 151, &run_case, &mut rep);
     }
-    for (name, f) in [("debruijn4", &(|r: &mut Report| all_plans(r, tier)) as &dyn Fn(&mut Report)), ("saturation", &(|r: &mut Report| saturation(r))), ("many_observations", &(|r: &mut Report| many_observations(r))), ("unhooked", &(|r: &mut Report| unhooked(r)))] {
+    let sp_all = |r: &mut Report| all_plans(r, tier);
+    let sp_sat = |r: &mut Report| saturation(r);
+    let sp_many = |r: &mut Report| many_observations(r);
+    let sp_unh = |r: &mut Report| unhooked(r);
+    // the smoke plan (second run of the quick tier, on the build with overflow checks) has no special runs
+    let specials: Vec<(&str, &dyn Fn(&mut Report))> = if vcommon::report::smoke() { vec![] } else { vec![("debruijn4", &sp_all), ("saturation", &sp_sat), ("many_observations", &sp_many), ("unhooked", &sp_unh)] };
+    for (name, f) in specials {
         if let Err(e) = std::panic::catch_unwind(std::panic::AssertUnwindSafe(|| f(&mut rep))) {
-            let msg = e.downcast_ref::<String>().cloned().or_else(|| e.downcast_ref::<&str>().map(|x| x.to_string())).unwrap_or_default();
-            rep.violation(Violation { signature: "panic".into(), case: json!({"special": name}), detail: format!("subject panicked in special run {}: {}", name, msg) });
+            vcommon::sweep::report_outer_panic(&mut rep, &format!("special run {}", name), e);
         }
     }
     let seen = PASSES_SEEN.lock().unwrap().clone();
